@@ -2,6 +2,7 @@ package main
 
 import (
 	"container/list"
+	"errors"
 	"reflect"
 	"unsafe"
 
@@ -36,7 +37,13 @@ type W interface {
 	Value(h H) int
 	Key(h H) uintptr // identity of the element (0 = typed nil)
 	RootKey(l int) uintptr
+	// Iter walks list l (rev: from the back) and hands every visited value to cb; cb returning true asks for an
+	// abort (honoured by the ForEach kinds, fe = true; Range cannot abort). cur is the visited element where the
+	// world knows it (the reference loop), nil where only the value is passed (ds). Returns (aborted, inconsistency).
+	Iter(l int, rev, fe bool, cb func(v int, cur H) bool) (bool, string)
 }
+
+var errAbort = errors.New("scripted abort")
 
 // ---------- ds.List (both flavours) ----------
 
@@ -91,6 +98,42 @@ func (w *dsWorld) RootKey(l int) uintptr {
 		return v.Pointer() // *list[T]: root is the first field
 	}
 	return v.Elem().Field(0).Pointer() // *threadSafeList[T]: first field is the embedded *list[T]
+}
+
+// Iter: ForEach / ForEachReverse (fe) or Range / RangeReverse of the real list with the scripted callback.
+func (w *dsWorld) Iter(l int, rev, fe bool, cb func(v int, cur H) bool) (bool, string) {
+	if !fe {
+		f := func(v int) { cb(v, nil) }
+		if rev {
+			w.ls[l].RangeReverse(f)
+		} else {
+			w.ls[l].Range(f)
+		}
+		return false, ""
+	}
+	asked := false
+	f := func(v int) error {
+		if cb(v, nil) { // (a walk that goes on after the error shows in the visit log)
+			asked = true
+			return errAbort
+		}
+		return nil
+	}
+	var err error
+	if rev {
+		err = w.ls[l].ForEachReverse(f)
+	} else {
+		err = w.ls[l].ForEach(f)
+	}
+	switch {
+	case err == nil && asked:
+		return false, "ForEach swallowed the callback's error"
+	case err != nil && !asked:
+		return true, "ForEach returned an error no callback returned"
+	case err != nil && !errors.Is(err, errAbort):
+		return true, "ForEach returned a different error than the callback's"
+	}
+	return err != nil, ""
 }
 
 func eqInts(a, b []int) bool {
@@ -189,4 +232,22 @@ func (w *clWorld) RValues(l int) ([]int, string) {
 		r = append(r, clV(e.Value))
 	}
 	return r, ""
+}
+
+// Iter: the reference loop `for e := l.Front(); e != nil; e = e.Next() { f(e) }` (successor read after the callback).
+func (w *clWorld) Iter(l int, rev, fe bool, cb func(v int, cur H) bool) (bool, string) {
+	if rev {
+		for e := w.ls[l].Back(); e != nil; e = e.Prev() {
+			if cb(clV(e.Value), e) && fe {
+				return true, ""
+			}
+		}
+		return false, ""
+	}
+	for e := w.ls[l].Front(); e != nil; e = e.Next() {
+		if cb(clV(e.Value), e) && fe {
+			return true, ""
+		}
+	}
+	return false, ""
 }
